@@ -158,6 +158,80 @@ func init() {
 		return "same"
 	})
 	// alias <alphabet> <rows> <copyop>: overlap of backing arrays, then mutate copy / original
+	// aliassplit <alphabet> <rows> <halves|codon>: Split must not write into its input, its parts must hold exactly
+	// the columns of their partition, and the parts must own their data
+	register("aliassplit", func(a []string) string {
+		al := alFrom(a[1], atoi(a[0]))
+		L := al.Length()
+		if L < 3 {
+			return "na"
+		}
+		ps := align.NewPartitionSet(L)
+		var part func(j int) int
+		if a[2] == "codon" {
+			for k := 0; k < 3; k++ {
+				if err := ps.AddRange(fmt.Sprintf("p%d", k), "M", k, L-1, 3); err != nil {
+					return "err-partition"
+				}
+			}
+			part = func(j int) int { return j % 3 }
+		} else {
+			h := L / 2
+			if err := ps.AddRange("p0", "M", 0, h-1, 1); err != nil {
+				return "err-partition"
+			}
+			if err := ps.AddRange("p1", "M", h, L-1, 1); err != nil {
+				return "err-partition"
+			}
+			part = func(j int) int {
+				if j < h {
+					return 0
+				}
+				return 1
+			}
+		}
+		in := rowsOf(al)
+		before := snapshot(al)
+		parts, err := al.Split(ps)
+		if err != nil {
+			return "err"
+		}
+		pure := snapshot(al) == before
+		partsOk := true
+		for pi, p := range parts {
+			got := rowsOf(p)
+			if len(got) != len(in) {
+				partsOk = false
+				continue
+			}
+			for i, r := range in {
+				exp := make([]byte, 0, len(r.Seq))
+				for j := 0; j < len(r.Seq); j++ {
+					if part(j) == pi {
+						exp = append(exp, r.Seq[j])
+					}
+				}
+				if got[i].Name != r.Name || got[i].Seq != string(exp) {
+					partsOk = false
+				}
+			}
+		}
+		shared := false
+		for _, p := range parts {
+			if overlap(spans(al), spans(p)) {
+				shared = true
+			}
+		}
+		mid := snapshot(al)
+		for _, p := range parts {
+			p.ToLower()
+			for i := 0; i < p.NbSequences(); i++ {
+				p.SetSequenceChar(i, 0, '#')
+			}
+		}
+		origKept := snapshot(al) == mid
+		return fmt.Sprintf("split-pure=%s parts-ok=%s shared=%s orig-unchanged=%s", btoa(pure), btoa(partsOk), btoa(shared), btoa(origKept))
+	})
 	register("alias", func(a []string) string {
 		al := alFrom(a[1], atoi(a[0]))
 		var c align.SeqBag
